@@ -64,11 +64,13 @@ br_i15_decode_reduce(uint16_t *x,
 	if (k >= len) {
 		br_i15_decode(x, src, len);
 		x[0] = m_ebitlen;
+	BR_VERIF_PUBLIC_MEM(x, sizeof *x);   /* header word now holds the modulus length */
 		return;
 	}
 	buf = src;
 	br_i15_decode(x, buf, k);
 	x[0] = m_ebitlen;
+	BR_VERIF_PUBLIC_MEM(x, sizeof *x);   /* header word now holds the modulus length */
 
 	/*
 	 * Input remaining bytes, using 15-bit words.
